@@ -786,4 +786,8 @@ N('IC-guard-via-local', ['C06', 'C07'], 'type_blocks.py', 'TypeBlocks.resize_blo
 B('KD-position-check-removed', ['C05', 'C09', 'C02'], 'index_level.py', 'IndexLevelGO.append',
   "                elif node.targets is not None and node.index._loc_to_iloc(k) != node.index.__len__() - 1:", "                elif False:", 'I.descent-follows-key', 'IndexLevelGO.append')
 
+# ---------------------------------------------------------------------------------- sort key dtypes (C12)
+B('SK-keys-consolidated', ['C12'], 'frame.py', 'Frame.sort_values',
+  '                cfs = self._blocks._extract(column_key=iloc_key) # get TypeBlocks\n                cfs_is_array = False', '                cfs = self._blocks._extract_array(column_key=iloc_key)\n                cfs_is_array = True', 'I.sort-keys-own-dtype', 'Frame.sort_values')
+
 VARIANTS = V
